@@ -50,6 +50,9 @@ def cells(tier, seed):
             out.append({"kind": "fixed", "pattern": list(bits), "ctx": ctx})
             if tier == "thorough":
                 out.append({"kind": "matern", "pattern": list(bits), "ctx": ctx})
+            # kernel-specific prediction strategies (inducing points, random features, grid interpolation)
+            for k in ("sgpr", "rff", "kiss"):
+                out.append({"kind": k, "pattern": list(bits), "ctx": ctx})
     if tier == "thorough":
         # five training points (all 31 patterns), and a batch of three elements with every triple of patterns over two points
         for bits in itertools.product([0, 1], repeat=5):
@@ -62,6 +65,8 @@ def cells(tier, seed):
             continue
         for ctx in (["default", "fpv"] if tier == "thorough" else ["default"]):
             out.append({"kind": "multitask", "pattern": list(bits), "ctx": ctx})
+        # independent outputs held task-major (MultitaskMultivariateNormal.from_independent_mvns)
+        out.append({"kind": "multitask_ni", "pattern": list(bits), "ctx": "default"})
     for b0 in itertools.product([0, 1], repeat=3):
         for b1 in itertools.product([0, 1], repeat=3):
             if sum(b0) == 3 or sum(b1) == 3 or (sum(b0) == 0 and sum(b1) == 0):
@@ -80,6 +85,9 @@ def cells(tier, seed):
     return out
 
 
+STRATEGY_KINDS = ("sgpr", "rff", "kiss")
+
+
 def settings_ctx(name):
     import contextlib
     st = contextlib.ExitStack()
@@ -89,7 +97,8 @@ def settings_ctx(name):
 
 
 def build(kind, seed, X, y):
-    fam = {"single": "exact", "batch": "exact", "multitask": "multitask", "fixed": "fixednoise_learn", "matern": "matern_ard"}[kind]
+    fam = {"single": "exact", "batch": "exact", "multitask": "multitask", "fixed": "fixednoise_learn", "matern": "matern_ard",
+           "sgpr": "sgpr", "rff": "rff", "kiss": "kiss"}[kind]
     mb = (2,) if kind == "batch" else ()
     m = models.ExactModel(X, y, fam, seed, batch_shape=mb)
     models.perturb_(m, seed, "c16" + kind)
@@ -99,6 +108,109 @@ def build(kind, seed, X, y):
                 p.clamp_(min=-2.0)
     m.eval()
     return m
+
+
+class IndepOutputs(gpytorch.models.ExactGP):
+    """t = 2 independent outputs: batched mean / kernel, joint prior from_independent_mvns (NON-interleaved, task-major covariance)"""
+
+    def __init__(self, X, y, seed):
+        torch.manual_seed(util.seed_for(seed, "c16ni"))
+        lik = gpytorch.likelihoods.MultitaskGaussianLikelihood(num_tasks=2, rank=0)
+        super().__init__(X, y, lik)
+        bs = torch.Size([2])
+        self.mean_module = gpytorch.means.ConstantMean(batch_shape=bs)
+        self.covar_module = gpytorch.kernels.ScaleKernel(gpytorch.kernels.RBFKernel(batch_shape=bs), batch_shape=bs)
+        self.fam = "multitask_ni"
+
+    def forward(self, x):
+        mean, covar = self.mean_module(x), self.covar_module(x)
+        return gpytorch.distributions.MultitaskMultivariateNormal.from_independent_mvns(
+            [gpytorch.distributions.MultivariateNormal(mean[k], covar[k]) for k in range(2)])
+
+
+def run_indep_outputs(cell, seed, feats):
+    """every quantity per output k equals the single-output GP of task k on ITS observed points (the outputs are independent by construction)"""
+    fails = Fails()
+    g = util.gen(seed, "c16|multitask_ni")
+    n, d, m, t = 3, 1, 2, 2
+    X, y0, Xs = util.rand(g, n, d), util.randn(g, n, t), util.rand(g, m, d)
+    nanmask = torch.tensor(cell["pattern"], dtype=torch.bool).view(n, t)
+    y = y0.clone()
+    y[nanmask] = float("nan")
+
+    def mk(yy):
+        mod = IndepOutputs(X, yy, seed)
+        models.perturb_(mod, seed, "c16ni")
+        with torch.no_grad():
+            for name, p in mod.named_parameters():
+                if "raw_noise" in name or "raw_task_noises" in name:
+                    p.clamp_(min=-2.0)
+        return mod
+
+    clean = mk(y0)
+    clean.eval()
+    with torch.no_grad():
+        Xall = torch.cat([X, Xs], -2)
+        Kb = clean.covar_module(Xall).to_dense()           # 2 x (n+m) x (n+m)
+        mub = clean.mean_module(Xall)                        # 2 x (n+m)
+        noise = clean.likelihood.task_noises + clean.likelihood.noise   # per task
+    ops = 0
+    # Only the MLL clause applies to this model class: an exact GP whose prior is held task-major cannot PREDICT under any policy
+    # (exact_prediction splits the joint covariance assuming the interleaved order - not a matter of missing observations), so the
+    # posterior loop below is kept for completeness but not run.
+    for pol in ():
+        f2 = dict(feats, policy=pol, order=pol)
+        model = mk(y)
+        model.eval()
+        try:
+            with S.observation_nan_policy(pol), torch.no_grad():
+                out = model(Xs)
+                gm, gc = out.mean, out.covariance_matrix
+                inter = getattr(out, "_interleaved", True)
+            ops += 1
+        except Exception as e:
+            fails.append({"sub": "predict", "symptom": util.exc_str(e), "detail": "", "features": f2})
+            continue
+        if torch.isnan(gm).any() or torch.isnan(gc).any():
+            fails.append({"sub": "no-nan", "symptom": "NaN in the posterior under policy " + pol, "detail": "", "features": f2})
+            continue
+        for k in range(t):
+            o = ~nanmask[:, k]
+            Kxx = Kb[k][:n, :n][o][:, o] + noise[k] * torch.eye(int(o.sum()), dtype=F64)
+            Ksx, Kss = Kb[k][n:, :n][:, o], Kb[k][n:, n:]
+            if int(o.sum()) == 0:
+                wm, wc = mub[k][n:], Kss
+            else:
+                wm, wc = dense.conditional(Kxx, Ksx, Kss, mub[k][:n][o], mub[k][n:], y0[:, k][o])
+            idx = torch.arange(m) * t + k if inter else k * m + torch.arange(m)
+            ok, msg = util.close(gm[:, k], wm, 1e-7, 1e-7)
+            if not ok:
+                fails.append({"sub": "mean", "symptom": f"posterior mean of output {k} != single-output GP on its observed points: err={msg}", "detail": "", "features": f2})
+            ok, msg = util.close(gc[idx][:, idx], wc, 1e-7, 1e-7)
+            if not ok:
+                fails.append({"sub": "covariance", "symptom": f"posterior covariance block of output {k} != single-output GP on its observed points: err={msg}", "detail": "", "features": f2})
+    # MLL under mask: n_total * MLL == sum over outputs of log N(y_k,obs)
+    if int((~nanmask).sum()) > 0:
+        f2 = dict(feats, policy="mask", order="mll")
+        with fails.guard("mll"):
+            model = mk(y)
+            model.train()
+            mll = gpytorch.mlls.ExactMarginalLogLikelihood(model.likelihood, model)
+            with S.observation_nan_policy("mask"):
+                val = mll(model(X), y).detach()
+            ops += 1
+            want = torch.zeros((), dtype=F64)
+            for k in range(t):
+                o = ~nanmask[:, k]
+                if int(o.sum()):
+                    want = want + dense.gauss_logpdf(y0[:, k][o], mub[k][:n][o], Kb[k][:n, :n][o][:, o] + noise[k] * torch.eye(int(o.sum()), dtype=F64))
+            ok1, msg1 = util.close(val * y.numel(), want, 1e-8, 1e-8)
+            if not ok1:
+                fails.append({"sub": "mll", "symptom": f"n_total * masked MLL != sum over outputs of log N(y_obs): err={msg1}", "detail": f"got={float(val):.6f}", "features": f2})
+        for f in fails:
+            f.setdefault("features", f2)
+    return {"fails": fails, "sig": ",".join(sorted({f["sub"] for f in fails})) or "ok", "features": feats, "ops": ops,
+            "nontrivial": 0 < int(nanmask.sum()) < nanmask.numel()}
 
 
 def deletion_reference(model, X, y, Xs, obs_flat, kind):
@@ -132,8 +244,10 @@ def run_cell(cell, seed):
     feats = {"kind": kind, "ctx": cell["ctx"], "n_nan": int(torch.tensor(cell["pattern"]).sum())}
     if kind == "elp":
         return run_elp(cell, seed, feats)
+    if kind == "multitask_ni":
+        return run_indep_outputs(cell, seed, feats)
     g = util.gen(seed, "c16|" + kind + ("" if len(cell["pattern"]) in (4, 6, 2) or kind != "single" else f"|{len(cell['pattern'])}"))
-    if kind in ("single", "fixed", "matern"):
+    if kind in ("single", "fixed", "matern", "sgpr", "rff", "kiss"):
         n, d, m = len(cell["pattern"]), 2, 3
         X, y0, Xs = util.rand(g, n, d), util.randn(g, n), util.rand(g, m, d)
         nanmask = torch.tensor(cell["pattern"], dtype=torch.bool)
@@ -202,13 +316,25 @@ def run_cell(cell, seed):
                     wm, wc, K, Sn, mu = deletion_reference(sub, X[b], y0[b], Xs[b], obs, "single")
                     gm, gc = mean[b], cov[b]
                     allm, allc, _, _, _ = deletion_reference(sub, X[b], y0[b], Xs[b], torch.ones_like(obs), "single")
+                elif kind in STRATEGY_KINDS:
+                    # kernel-specific strategies: the statement taken literally - the SAME model class built on the data set with the NaN
+                    # observations deleted (same hyperparameters / inducing points / random features / grid; what that model computes is
+                    # C01's and C09's subject)
+                    def lib_on(keep):
+                        ref_model = build(kind, seed, X[keep], y0[keep])
+                        with settings_ctx(cell["ctx"]), S.observation_nan_policy("ignore"), torch.no_grad():
+                            o = ref_model(Xs)
+                            return o.mean.clone(), o.covariance_matrix.clone()
+                    wm, wc = lib_on(obs)
+                    gm, gc = mean, cov
+                    allm, allc = lib_on(torch.ones_like(obs))
                 else:
                     wm, wc, K, Sn, mu = deletion_reference(clean, X, y0, Xs, obs, kind)
                     gm, gc = mean, cov
                     allm, allc, _, _, _ = deletion_reference(clean, X, y0, Xs, torch.ones_like(obs), kind)
                 # CG: linear_cg's hard-coded residual floor (1e-10 relative to |rhs|) times the -999 fill value of the missing
                 # entries limits 'fill' under CG to ~1e-3 absolute whatever tolerance is requested (measured 8.2e-4)
-                tol = (5e-3 if pol == "fill" else 1e-5) if cell["ctx"] == "cg" else 1e-7
+                tol = (5e-3 if pol == "fill" else 1e-5) if cell["ctx"] == "cg" else (1e-6 if kind == "kiss" else 1e-7)
                 ok, msg = util.close(gm, wm, tol, tol)
                 if not ok:
                     fails.append({"sub": "mean", "symptom": f"posterior mean != mean after deleting the NaN observations: err={msg}", "detail": f"b={b}", "features": f2})
